@@ -218,10 +218,16 @@ def judge_follow_up(response: bytes, c) -> list:
 
 # ---------------------------------------------------------------------------------------------------- framing
 
+def _c17():
+    from vf.props import c17
+    return c17
+
+
 def st_framing():
     cl = st.sampled_from(['exact', 'absent', 'short', 'long', 'abc', '-5', '1e3', '99999999999999999999', '', ' 7'])
     chunk = st.sampled_from(['none', 'ok', 'ok-ext', 'truncated-body', 'truncated-header', 'negative', 'huge', 'nonhex', 'no-final',
-                             'empty-header', 'missing-crlf', 'upper-TE'])
+                             'empty-header', 'missing-crlf', 'upper-TE', 'truncated-tail', 'truncated-any', 'trailer',
+                             'trailer-truncated'])
     return st.fixed_dictionaries({
         'method': st.sampled_from(['POST', 'POST', 'POST', 'GET', 'PUT', 'DELETE', 'post', '']),
         'path': st.sampled_from(['valid', 'valid', 'valid-sub', '', '?', '?wsdl', 'noslash', '/unknown/x', '/a/b/c/d/e/f', '/%ZZ', '//', '/',
@@ -232,9 +238,10 @@ def st_framing():
         'version': st.sampled_from(['HTTP/1.1', 'HTTP/1.1', 'HTTP/1.0', 'HTTP/9.9', 'HTTP/1.1 x']),
         'cl': cl, 'chunk': chunk,
         'coding': st.sampled_from(['none', 'none', 'gzip', 'gzip-corrupt', 'br', 'x-lz4', 'lz4-corrupt', 'GZIP', 'gzip,gzip']),
-        'accept': st.sampled_from([None, 'gzip', 'gzip;q=0', '*', 'x-lz4, gzip', 'identity', 'gzip ; q = abc', ',,,']),
+        'accept': st.one_of(st.sampled_from([None, 'gzip', 'gzip;q=0', '*', 'x-lz4, gzip', 'identity', 'gzip ; q = abc', ',,,']),
+                            _c17().st_header().map(_c17().render_header)),
         'body': st.one_of(st.integers(0, 40), st.binary(max_size=60)), 'to': st.sampled_from(['provider', 'provider', 'consumer']),
-        'chunk_size': st.integers(1, 300),
+        'chunk_size': st.integers(1, 300), 'cut': st.integers(0, 5000),
         # a valid request follows on the same (keep-alive) connection
         'follow': st.booleans()})
 
@@ -295,6 +302,14 @@ def framing_case(ctx, c):
             wire = b'zz\r\n' + payload[:10] + b'\r\n0\r\n\r\n'
         elif framing == 'no-final':
             wire = ok[:-5]
+        elif framing == 'truncated-tail':  # the stream ends inside the last-chunk line / the final CRLF
+            wire = ok[:-(c.get('cut', 0) % 6 + 1)]
+        elif framing == 'truncated-any':
+            wire = ok[:c.get('cut', 0) % len(ok)]
+        elif framing == 'trailer':
+            wire = ok[:-2] + b'X-Trailer: 1\r\n\r\n'
+        elif framing == 'trailer-truncated':
+            wire = (ok[:-2] + b'X-Trailer: 1\r\n\r\n')[:-(c.get('cut', 0) % 16 + 1)]
         elif framing == 'empty-header':
             wire = b'\r\n' + ok
         else:  # missing-crlf
@@ -334,7 +349,10 @@ def framing_case(ctx, c):
 
 def st_mutation():
     big = st.sampled_from(['999999999999999999999999', '-1', '-999999999999', '1e309', 'NaN', '', ' ', '\u0000', 'A' * 2000,
-                           '../../etc/passwd', 'urn:uuid:x', '0', 'true', 'PT9999999999H', '-PT1S'])
+                           '../../etc/passwd', 'urn:uuid:x', '0', 'true', 'PT9999999999H', '-PT1S',
+                           # address-like values (NotifyTo / EndTo / To / ReplyTo / Identifier)
+                           'http://127.0.0.1:99999/x', 'http://[::1/x', 'http://h:abc/x', 'ftp://h/x', 'https://127.0.0.1:1/\u20ac',
+                           'http:///nohost', '//h/x', 'http://127.0.0.1:0/', 'mailto:a@b'])
     m = st.one_of(
         st.tuples(st.just('del_elem'), st.integers(0, 200)).map(list),
         st.tuples(st.just('dup_elem'), st.integers(0, 200)).map(list),
